@@ -26,6 +26,9 @@ ALIAS_VARIANTS = {
 
 def build(t, alias, tag=""):
     """AST + alias dict of a scenario (alias names get the tag, targets do not)."""
+    if alias == "derived":
+        from props.chaincommon import DERIVE_RENAME
+        return ast_of_tables(t, tag, DERIVE_RENAME, derive=True)
     amap = ALIAS_VARIANTS[alias]
     rename = {k: v[0] for k, v in amap.items()}
     ast = ast_of_tables(t, tag, rename)
@@ -172,6 +175,7 @@ def run(ctx):
     base = list(shapes.table_sets(2 if ctx.thorough else 1))
     spines = list(shapes.spine_table_sets()) + list(lines_family())
     items = [(t, "none") for t in base] + [(t, a) for t in spines for a in ALIAS_VARIANTS]
+    items += [(t, "derived") for t in base[:: (1 if ctx.thorough else 2)] if "X" in t or "Y" in t]
     # alias variants on a slice of the generated sets (all of them in thorough)
     step = 1 if ctx.thorough else 7
     for a in ("top", "nested", "stable", "all", "swapped", "same-target", "alias-of-table"):
